@@ -80,9 +80,27 @@ def motionFilterAcc (acc : List Rat) (ang : Nat → Nat → Rat) (d a : Rat) : E
   else if a < 0 then .error .filter
   else .ok (0 :: motionGo ang d a acc.tail 1 0 0)
 
-/-- `filter_by_motion` from the step lengths (`lens.length + 1` poses) -/
+/-- `filter_by_motion` from the step lengths (`lens.length + 1` poses) in the formulation the code had before F18:
+the distance test takes differences of accumulated distances. Over the rationals it is the same function as
+`motionFilterSteps` (`Props/C11.motionFilter_steps_formulation_agrees`). -/
 def motionFilter (lens : List Rat) (ang : Nat → Nat → Rat) (d a : Rat) : Except Err (List Nat) :=
   motionFilterAcc (accDist lens) ang d a
+
+/-- the loop of `filter_by_motion` since the repair of F18: `cur` = path length accumulated since the last kept pose
+(reset to 0 whenever a pose is kept); the angle is only evaluated when the distance test fails -/
+def motionGoSteps (ang : Nat → Nat → Rat) (d a : Rat) : List Rat → Nat → Nat → Rat → List Nat
+  | [], _, _, _ => []
+  | l :: r, i, pid, cur =>
+      if d ≤ cur + l then i :: motionGoSteps ang d a r (i + 1) i 0
+      else if a ≤ ang pid i then i :: motionGoSteps ang d a r (i + 1) i 0
+      else motionGoSteps ang d a r (i + 1) pid (cur + l)
+
+/-- `filter_by_motion` from the step lengths (`lens.length + 1` poses), as the code reads since F18 -/
+def motionFilterSteps (lens : List Rat) (ang : Nat → Nat → Rat) (d a : Rat) : Except Err (List Nat) :=
+  if lens.length + 1 < 2 then .error .filter
+  else if d < 0 then .error .filter
+  else if a < 0 then .error .filter
+  else .ok (0 :: motionGoSteps ang d a lens 1 0 0)
 
 /-! ### `numpy.where` on a list -/
 
